@@ -1,0 +1,33 @@
+//go:build verif
+
+package sfnt
+
+import (
+	"unsafe"
+
+	"seehuhn.de/go/sfnt/glyph"
+	"seehuhn.de/go/sfnt/opentype/gtab"
+)
+
+// Hooks for part C07B of the C07 verification harness (add-only, read-only):
+// the state a Layouter keeps between Layout calls.
+
+// VerifC07bBuf returns l.buf re-sliced to its full capacity (the stale tail
+// behind len included) and len(l.buf).  The caller must not write to it.
+func (l *Layouter) VerifC07bBuf() (full []glyph.Info, n int) {
+	return l.buf[:cap(l.buf)], len(l.buf)
+}
+
+// VerifC07bContexts returns the two contexts (nil when the font has no
+// GSUB/GPOS table).
+func (l *Layouter) VerifC07bContexts() (gsub, gpos *gtab.Context) {
+	return l.gsub, l.gpos
+}
+
+// VerifC07bBufIs reports whether l.buf starts at the same array element as s.
+func (l *Layouter) VerifC07bBufIs(s []glyph.Info) bool {
+	if cap(l.buf) == 0 || cap(s) == 0 {
+		return false
+	}
+	return unsafe.SliceData(l.buf) == unsafe.SliceData(s)
+}
